@@ -12,10 +12,10 @@ ASSUMPTIONS = [
     "trusted: clang 14 + ASan/UBSan, rapidcheck, GMP, OpenSSL 3.0",
 ]
 SUBS = [
-    dict(name="modexp", quick=dict(cases=5500, shards=10), thorough=dict(cases=55000, shards=10)),
-    dict(name="agree", quick=dict(cases=5500, shards=2), thorough=dict(cases=55000, shards=2)),
-    dict(name="sanity", quick=dict(cases=200000, shards=2), thorough=dict(cases=2000000, shards=2)),
-    dict(name="generate", quick=dict(cases=18000, shards=2), thorough=dict(cases=180000, shards=2)),
+    dict(name="modexp", quick=dict(cases=6500, shards=10), thorough=dict(cases=65000, shards=10)),
+    dict(name="agree", quick=dict(cases=6500, shards=2), thorough=dict(cases=65000, shards=2)),
+    dict(name="sanity", quick=dict(cases=250000, shards=2), thorough=dict(cases=2500000, shards=2)),
+    dict(name="generate", quick=dict(cases=22000, shards=2), thorough=dict(cases=220000, shards=2)),
 ]
 
 
